@@ -122,20 +122,20 @@ def climb (H : HashFn) (I path : Bytes) : (fuel : Nat) → (nodeNum i : Nat) →
     else pure tmp
 
 /-- `lms::verify::generate_public_key_candidate`; `none` = `Err(())` -/
-def lmsCandidate (H : HashFn) (sig : InMemLmsSig) (pk : InMemLmsPk) (msg : Bytes) : P (Option Bytes) := do
+def lmsCandidate (H : HashFn) (sig : InMemLmsSig) (pk : InMemLmsPk) (msg : Bytes) : P (Option Bytes) :=
   let leafs := 2 ^ sig.lms.h
-  if sig.q ≥ leafs then return none
-  let kc ← lmotsCandidate H sig.ots pk.I sig.q msg
-  let nodeNum := leafs + sig.q
-  let tmp := H.h (pk.I ++ Bytes.u32be nodeNum ++ D_LEAF ++ kc)
-  let r ← climb H pk.I sig.path (sig.lms.h + 1) nodeNum 0 tmp
-  pure (some r)
+  if sig.q ≥ leafs then pure none else do
+    let kc ← lmotsCandidate H sig.ots pk.I sig.q msg
+    let nodeNum := leafs + sig.q
+    let tmp := H.h (pk.I ++ Bytes.u32be nodeNum ++ D_LEAF ++ kc)
+    let r ← climb H pk.I sig.path (sig.lms.h + 1) nodeNum 0 tmp
+    pure (some r)
 
 /-- `lms::verify::verify` -/
-def lmsVerify (H : HashFn) (sig : InMemLmsSig) (pk : InMemLmsPk) (msg : Bytes) : P Bool := do
-  if sig.ots.param != pk.ots || sig.lms != pk.lms then return false
-  match ← lmsCandidate H sig pk msg with
-  | none => pure false
-  | some c => pure (c == pk.key)
+def lmsVerify (H : HashFn) (sig : InMemLmsSig) (pk : InMemLmsPk) (msg : Bytes) : P Bool :=
+  if sig.ots.param != pk.ots || sig.lms != pk.lms then pure false else do
+    match ← lmsCandidate H sig pk msg with
+    | none => pure false
+    | some c => pure (c == pk.key)
 
 end Impl
